@@ -18,6 +18,7 @@
 From Coq Require Import List Bool Arith.
 Import ListNotations.
 From TI Require Import lib.Eff gen.Skeletons proofs.SkelC13 model.C13Any proofs.C13AnyProofs proofs.SkelC13Any.
+From TI Require Import gen.AttrFd model.C13Multi proofs.C13MultiProofs proofs.SkelC13Multi.
 
 Theorem C13_query_restores :
   forall vs, length vs = nv_query_terminal ->
@@ -102,3 +103,53 @@ Theorem C13_hook_before_restore_refuted :
   exists s', evalA false hook_before_restore (init []) (ORaise Exc) s' /\ tmod s' = true.
 Proof. exact (conj (proj1 analysis_any_shapes) hook_before_restore_run). Qed.
 Print Assumptions C13_hook_before_restore_refuted.
+
+(** * Round 8: WHICH terminal -- every terminal's attributes are put back
+
+    A process has several terminals (that of stdout, that of stdin -- the same or another one --,
+    the library's active terminal [_tty_fd], terminals it must not touch).  Each
+    [tcgetattr(E)] / [tcsetattr(E, ..)] addresses the terminal its descriptor expression [E]
+    refers to; [addr_of afd_*] is the addressing of the call sites translated from the current
+    source (coq/gen/AttrFd.v, harness/tx/tx_attrfd.py, fail-closed).  [multi_restores nv p a]
+    (coq/model/C13Multi.v): for EVERY layout [L] of descriptor expressions over terminals and
+    EVERY terminal [t] -- addressed or not --, every run of [evalA] (faults anywhere) of what [t]
+    sees of [p] ([proj]: a [tcgetattr] of another terminal taints the variable, a [tcsetattr] on
+    another terminal does not change [t]) ends with [t]'s attributes as found at entry. *)
+
+(** the check (all call sites of the operation on ONE descriptor expression, every attribute call
+    of the skeleton has a site, both views accepted by the verified analysis) is sound *)
+Theorem C13_multi_check_sound :
+  forall nv p l e0, multi_check nv p l e0 = true -> multi_restores nv p (addr_of l).
+Proof. exact multi_check_sound. Qed.
+Print Assumptions C13_multi_check_sound.
+
+Theorem C13_multi_query_restores :
+  multi_restores nv_query_terminal sk_query_terminal (addr_of afd_query_terminal).
+Proof. exact query_multi_restores. Qed.
+Print Assumptions C13_multi_query_restores.
+
+Theorem C13_multi_read_tty_restores :
+  multi_restores nv_read_tty sk_read_tty (addr_of afd_read_tty).
+Proof. exact read_tty_multi_restores. Qed.
+Print Assumptions C13_multi_read_tty_restores.
+
+Theorem C13_multi_write_tty_restores :
+  multi_restores nv_write_tty sk_write_tty (addr_of afd_write_tty).
+Proof. exact write_tty_multi_restores. Qed.
+Print Assumptions C13_multi_write_tty_restores.
+
+Theorem C13_multi_draw_restores :
+  multi_restores nv_Renderable_draw sk_Renderable_draw (addr_of afd_Renderable_draw).
+Proof. exact draw_multi_restores. Qed.
+Print Assumptions C13_multi_draw_restores.
+
+(** "save on A, set on B, restore on A": accepted by the one-terminal analysis, fine when A and B
+    are one terminal, refuted when they are two (terminal B ends with its attributes modified on
+    the fault-free run) *)
+Theorem C13_multi_save_A_set_B_refuted :
+  analyze_any 0 save_A_set_B_restore_A = true /\
+  ~ multi_restores 0 save_A_set_B_restore_A (addr_of sites_AB) /\
+  exists s', evalA false (proj (sel_of (addr_of sites_AB) (fun e => e) 1) save_A_set_B_restore_A)
+                   (init []) ONorm s' /\ tmod s' = true.
+Proof. exact (conj (proj1 one_terminal_accepts_AB) (conj AB_refuted AB_two_terminals_run)). Qed.
+Print Assumptions C13_multi_save_A_set_B_refuted.
